@@ -1374,7 +1374,13 @@ class SyncedStackedTransforms(StackedTransforms):
 
     def push(self, captures):
         super().push(captures)
-        self._apply(self.target)
+        try:
+            self._apply(self.target)
+        except BaseException:
+            # The variant could not be built (e.g. no source code): this
+            # activation must not be counted
+            super().pop(captures)
+            raise
 
     def pop(self, captures):
         super().pop(captures)
